@@ -111,7 +111,7 @@ fn main() {
             for _ in 0..(if quick { 10_000 } else { 100_000 }) {
                 let start = *r.pick(model::START_VALUES);
                 let len = 5 + r.below(36);
-                let ops: Vec<String> = (0..len).map(|_| model::random_op(&mut r).to_probe()).collect();
+                let ops: Vec<String> = model::random_history(&mut r, len).iter().map(|o| o.to_probe()).collect();
                 writeln!(out, "H {} {}", mon::hex(start.as_bytes()), ops.join(" ")).unwrap();
             }
             for _ in 0..(if quick { 20_000 } else { 200_000 }) {
